@@ -834,7 +834,7 @@ class Interp:
             # bytearray is modelled as an immutable bytes value (see lib.f_bytearray): the in-place methods
             # `buf.extend(x)` / `buf.clear()` used as statements rebind the name/attribute (no aliasing of the buffer)
             recv = self.resolve(self.eval(v.func.value))
-            if isinstance(recv, SBytes):
+            if isinstance(recv, SBytes) and recv.kind != "bytearray":  # libx_dns.SByteArray is mutable in place (aliasing kept)
                 self.ex.note("assumed", "bytearray modelled as bytes: buf.extend(x)/buf.clear() rebind buf (no aliasing of the buffer)")
                 if v.func.attr == "clear" and not v.args:
                     self.assign(v.func.value, SBytes(b""))
@@ -1093,25 +1093,6 @@ class Interp:
                 x = self.lib.seq_elem(self, it, z3.IntVal(n)) if isinstance(it, SSeq) else seq_getitem(it, n)
                 n += 1
                 self.assign(s.target, x)
-                try:
-                    self.exec_block(s.body)
-                except BreakSig:
-                    return
-                except ContinueSig:
-                    continue
-        if isinstance(it, SConst) and isinstance(it.obj, tuple) and it.obj and it.obj[0] == "srange":
-            # range(lo, hi) with symbolic bounds: bounded unrolling (labelled), one fork per iteration on lo + n < hi
-            lo, hi = _zi(it.obj[1]), _zi(it.obj[2])
-            n = 0
-            while True:
-                if not self.branch(SBool(lo + n < hi)):
-                    self.exec_block(s.orelse)
-                    return
-                if n >= self.ex.max_unroll:
-                    self.ex.note("bounded", f"for loop over range() in {fr.func.key} line {s.lineno} unrolled {self.ex.max_unroll}x")
-                    raise PathEnd("unroll bound", truncated=True)
-                self.assign(s.target, SInt(simp(lo + n)))
-                n += 1
                 try:
                     self.exec_block(s.body)
                 except BreakSig:
